@@ -14,12 +14,23 @@ ENTRIES = []
 RULE = ("1-4 datasets with overlapping Q ranges on the 0.01 lattice (30% with raw abscissae off the lattice), per-dataset crops, "
         "scales, Q offsets that are and are not multiples of 0.01, optional global window; merge; all permutations of the add order; "
         "merge repeated; stored Q kept positive; non-trivial = at least two contributed points share a Q value")
-DIST = ["nd", "offset"]
+DIST = ["nd", "offset", "repeated"]
 SHRINK = None
 
 
 def gen(rng, i, tier):
     c = c11.gen(rng, i, tier)
+    c["repeated"] = False
+    if rng.random() < 0.15 and not c.get("shared_info") and c.get("reject_at") is None:
+        # the same measurement contributed twice (a file listed twice, two identical banks) next to a third that differs: every Q of
+        # it then has two identical (S, dS) contributions and one other — the mean counts each contribution once
+        d0 = c["datasets"][int(rng.integers(0, len(c["datasets"])))]
+        twin = {k: (dict(v) if isinstance(v, dict) else list(v) if isinstance(v, list) else v) for k, v in d0.items()}
+        other = {k: (dict(v) if isinstance(v, dict) else list(v) if isinstance(v, list) else v) for k, v in d0.items()}
+        other["y"] = [float(v) + 0.7 for v in d0["y"]]
+        c["datasets"] += [twin, other]
+        c["nd"] = len(c["datasets"])
+        c["repeated"] = True
     need = False
     for d in c["datasets"]:
         off = d.get("X", {}).get("Offset", 0.0)
